@@ -332,6 +332,33 @@ pub fn c10(rec: &StepRec, _p: &Pool, out: &mut Vec<Viol>) {
     if !texts(|t| t.statics_intact()) {
         v("static-bytes", format!("{:?} modified the bytes of a 'static text", rec.op));
     }
+    // the first operation that writes or grows a static handle must leave the correct contents
+    // in own storage: it may neither fail where the reference succeeds nor produce another text
+    if let Some(t) = rec.op.target() {
+        if let Some(a) = rec.pre[t].as_ref() {
+            if a.kind == Kind::Static && !matches!(rec.op, Drop(_) | CloneFrom(..) | Assign(..)) {
+                let agrees = match (&rec.lean, &rec.expect) {
+                    (Outcome::Done(x), Expect::Done(y)) | (Outcome::Done(x), Expect::Absorb(y)) => x == y,
+                    (Outcome::Panic(m), Expect::Panic) => m != ALLOC_MSG,
+                    (Outcome::ReserveErr, Expect::Refuse) => true,
+                    (Outcome::Panic(m), Expect::Refuse) => m == ALLOC_MSG,
+                    _ => false,
+                };
+                if !agrees {
+                    v("write-fails", format!("{:?} on a static handle ({} bytes): {:?}, the reference demands {:?}", rec.op, a.len, rec.lean, rec.expect));
+                } else if let (Some(b), Some(m)) = (rec.post[t].as_ref(), _p.m[t].as_ref()) {
+                    if b.text != m.as_bytes() {
+                        v("write-text", format!("{:?} on a static handle: reads {:?}, must read {:?}", rec.op, String::from_utf8_lossy(&b.text), m));
+                    } else if b.kind == Kind::Static && b.text != a.text {
+                        let inside = b.ptr >= a.ptr && b.ptr + b.len <= a.ptr + a.cap.max(a.len);
+                        if !inside {
+                            v("static-moved", format!("{:?}: static handle now points elsewhere", rec.op));
+                        }
+                    }
+                }
+            }
+        }
+    }
     if !succeeded(rec) {
         return;
     }
